@@ -131,6 +131,21 @@ CLAIMED = {
         "C04/C05), lmfit convergence (explored).",
         "Lean 4 proof (algebraic equivalence of the two least-squares problems; instantiation at regenerated "
         "models) + paired-fit oracle", "DESIGN.md §5 C11"),
+    "C01": (
+        "Machine-checked Lean 4 proof (any ordered field, any sampling and mask): the generating parameters have "
+        "zero residual, every least-squares minimiser of exact data reproduces the data on all used points, and "
+        "for power-law models zero residual on two non-contact and two contact abscissae forces (E', cp', b') = "
+        "(E, cp, b) - identifiability and uniqueness of the minimiser; instantiated over the reals at the "
+        "REGENERATED hertz_para / hertz_cone / hertz_pyr3s model functions. So a reported chi-square of ~0 can "
+        "only be the generating parameters, and nanite's glue (masks C05, k-scaling C11, weights C04) cannot move "
+        "the minimiser. Partial: convergence of lmfit from the stated basin, the precision reached and the noise "
+        "clause are explored by recovery runs on ground truth generated from the documented formulas "
+        "(independently of the library); identifiability of the series sphere and of the layered model and the "
+        "weighted case are not proved.",
+        "Trusted: Lean kernel, standard axioms, translator (validated in C02), lmfit/scipy optimisers (explored); "
+        "the basin and tolerances are stated in the evidence.",
+        "Lean 4 proof (identifiability / uniqueness of the least-squares minimiser) + recovery runs on "
+        "independently generated ground truth", "DESIGN.md §5 C01"),
 }
 
 PENDING_REASON = "check not built yet in this round (planned, see DESIGN.md §8); not claimed until its machinery exists"
